@@ -3,7 +3,7 @@ import os, re
 import vlib, e2e, gen_conv, docs
 from vlib import show
 
-THEOREMS = ["C10_exit", "C10_one_result_per_file", "C10_each_unit_converted_once"]
+THEOREMS = ["C10_exit", "C10_one_result_per_file", "C10_each_unit_converted_once", "C10_unloadable_files_change_nothing"]
 
 BROKEN = {
     "syntax": "[Container\nImage=x\n",
